@@ -21,6 +21,7 @@ package lib
 //	C:<hex>     well-behaved session: stream these frames from a goroutine while the following tokens run
 //	J           wait until every frame of the stream has been answered               -> one more g entry
 //	V:<path-hex>:<content-hex>  close the well-behaved session, then the file must be on disk (attachment) -> v=1
+//	X:<path-hex>:<content-hex>  x=1 when the file finally holds exactly this content
 //	W           wait 60 ms (teardown of a connection that was just closed)
 //	A:<hex>     accept check: a NEW connection, send, wait for the answer, close  -> a=<hex>
 //
@@ -471,6 +472,28 @@ func c10ExpectAtt(dialect int, segs [][]byte) (answer bool) {
 // c10ContainOp plays the script; when an awaited answer did not come within the timeout although the process is
 // alive (a stall of the machine: the default file handler fsyncs its log after every event), the script is played
 // again on fresh connections, up to 3 times; only what persists is reported.
+// C10LateAnswers counts answers that needed the long wait (a stall of the machine, not a replay).
+var C10LateAnswers = map[string]int{}
+
+// patient waits for pred; when the normal timeout passes and the connection is still open it waits three times as
+// long again ON THE SAME CONNECTION (nothing is replayed, a late answer is still this attempt's answer).
+func (cc *c10Cli) patient(kind string, pred func([]byte) bool) (data []byte, closed, ok bool) {
+	data, closed, ok = cc.waitFor(pred, ContainWaitAnswer)
+	if ok || closed {
+		return
+	}
+	data, closed, ok = cc.waitFor(pred, 3*ContainWaitAnswer)
+	if ok {
+		C10LateAnswers[kind]++
+	}
+	return
+}
+
+// What is replayed, and what is not.  A missing or wrong answer is NEVER replayed: the well-behaved session, the accept
+// check and the probes wait up to 16 s on their connection and what they then see is final.  Only two things make an
+// attempt "suspect" and have the script played again on fresh connections (at most 3 attempts): a connection that was
+// RESET without the bytes sent explaining it (ephemeral-port reuse on a machine doing thousands of connects), and a
+// failed dial.  Every replay is counted (C10Transients; more than 10 in a run is itself a violation).
 // A crash is never forgiven: an attempt during which the process died is final (suspect is cleared when the child is
 // not alive).  Every replay is counted (C10Transients) and reported in the run's statistics.
 var C10Transients = map[string]int{}
@@ -526,13 +549,14 @@ func c10ContainOnce(kind string, a []string) (result string, suspect bool) {
 	bgSent := 0
 	var bgDone chan struct{}
 	verify := ""
+	xcheck := ""
 	for _, tok := range a[1:] {
 		if fail != "" {
 			break
 		}
 		head, hx, _ := strings.Cut(tok, ":")
 		var data []byte
-		if hx != "" && head != "V" {
+		if hx != "" && head != "V" && head != "X" && head != "C" {
 			data = Unhx(hx)
 		}
 		switch {
@@ -542,10 +566,12 @@ func c10ContainOnce(kind string, a []string) (result string, suspect bool) {
 				break
 			}
 			c.c.Write(data)
-			d, _, ok := c.waitFor(func(b []byte) bool { return len(b) > gSeen && c10WholeFrames(b[gSeen:], 1) }, ContainWaitAnswer)
+			d, closedG, ok := c.patient(kind, func(b []byte) bool { return len(b) > gSeen && c10WholeFrames(b[gSeen:], 1) })
 			if !ok {
 				g = append(g, "none")
-				suspect = true
+				if closedG {
+					suspect = true // the good connection was reset
+				}
 			} else {
 				// a little patience for further frames of the same answer (there are none in practice)
 				g = append(g, Hx(d[gSeen:]))
@@ -564,8 +590,21 @@ func c10ContainOnce(kind string, a []string) (result string, suspect bool) {
 			if c == nil {
 				break
 			}
-			frames, _ := SplitFrames(data)
-			bgSent = len(frames)
+			var frames [][]byte // the pieces to write, one write each; those that are frames get an answer
+			bgSent = 0
+			for _, piece := range strings.Split(hx, ",") {
+				b := Unhx(piece)
+				if kind == "808" {
+					fs, _ := SplitFrames(b)
+					frames = append(frames, fs...)
+					bgSent += len(fs)
+				} else {
+					frames = append(frames, b)
+					if len(b) > 0 && b[0] == 0x7e {
+						bgSent++
+					}
+				}
+			}
 			bgDone = make(chan struct{})
 			go func() {
 				defer close(bgDone)
@@ -581,10 +620,12 @@ func c10ContainOnce(kind string, a []string) (result string, suspect bool) {
 				break
 			}
 			<-bgDone
-			d, _, ok := c.waitFor(func(b []byte) bool { return len(b) > gSeen && c10WholeFrames(b[gSeen:], bgSent) }, ContainWaitAnswer)
+			d, closedG, ok := c.patient(kind, func(b []byte) bool { return len(b) > gSeen && c10WholeFrames(b[gSeen:], bgSent) })
 			if !ok {
 				g = append(g, "none")
-				suspect = true
+				if closedG {
+					suspect = true
+				}
 			} else {
 				g = append(g, Hx(d[gSeen:]))
 			}
@@ -600,14 +641,23 @@ func c10ContainOnce(kind string, a []string) (result string, suspect bool) {
 			want := Unhx(content)
 			full := filepath.Join(child.Cwd, string(Unhx(path)))
 			verify = "0"
-			for t0 := time.Now(); time.Since(t0) < 3*time.Second; time.Sleep(2 * time.Millisecond) {
+			for t0 := time.Now(); time.Since(t0) < 12*time.Second; time.Sleep(2 * time.Millisecond) {
 				if b, err := os.ReadFile(full); err == nil && bytes.Equal(b, want) {
 					verify = "1"
 					break
 				}
 			}
-			if verify == "0" {
-				suspect = true
+		case head == "X":
+			// what is on disk at this path in the end: x=1 when it is exactly this content (waits up to 3 s for it)
+			path, content, _ := strings.Cut(hx, ":")
+			want := Unhx(content)
+			full := filepath.Join(child.Cwd, string(Unhx(path)))
+			xcheck = "0"
+			for t0 := time.Now(); time.Since(t0) < 3*time.Second; time.Sleep(2 * time.Millisecond) {
+				if b, err := os.ReadFile(full); err == nil && bytes.Equal(b, want) {
+					xcheck = "1"
+					break
+				}
 			}
 		case head == "W":
 			time.Sleep(60 * time.Millisecond) // let the server finish the teardown of a connection just closed
@@ -618,12 +668,14 @@ func c10ContainOnce(kind string, a []string) (result string, suspect bool) {
 				break
 			}
 			c.c.Write(data)
-			d, _, ok := c.waitFor(func(b []byte) bool { return c10WholeFrames(b, 1) }, ContainWaitAnswer)
+			d, closedA, ok := c.patient(kind, func(b []byte) bool { return c10WholeFrames(b, 1) })
 			if ok {
 				acc = Hx(d)
 			} else {
 				acc = "none"
-				suspect = true
+				if closedA {
+					suspect = true
+				}
 			}
 			c.close(false)
 		case head[0] == 'O':
@@ -660,6 +712,11 @@ func c10ContainOnce(kind string, a []string) (result string, suspect bool) {
 					wait = ContainWaitAnswer
 				}
 				d, closed, ok := c.waitFor(func(b []byte) bool { return c10ProbeAnswered(b, pser, 0x0002) }, wait)
+				if !ok && !closed && (answer || closing) { // expected and late: keep waiting on this connection, no replay
+					if d, closed, ok = c.waitFor(func(b []byte) bool { return c10ProbeAnswered(b, pser, 0x0002) }, 3*ContainWaitAnswer); ok || closed {
+						C10LateAnswers[kind]++
+					}
+				}
 				if ok && !closed && bytes.Contains(bytes.Join(sent[k], nil), []byte{0x7e, 0x80, 0x03}) {
 					// the echo of a 0x8003 frame travels on its own channel and may be written after the probe's answer
 					time.Sleep(30 * time.Millisecond)
@@ -675,9 +732,6 @@ func c10ContainOnce(kind string, a []string) (result string, suspect bool) {
 					status[k] = "open:" + c10Replies808(d)
 				default:
 					status[k] = "quiet:" + c10Replies808(d)
-					if answer || closing {
-						suspect = true
-					}
 				}
 			} else {
 				_, _, _, pser, _, _ := Parse808(data)
@@ -688,6 +742,11 @@ func c10ContainOnce(kind string, a []string) (result string, suspect bool) {
 					wait = ContainWaitAnswer
 				}
 				d, closed, ok := c.waitFor(func(b []byte) bool { return c10ProbeAnswered(b, pser, 0x1211) }, wait)
+				if !ok && !closed && answer {
+					if d, closed, ok = c.waitFor(func(b []byte) bool { return c10ProbeAnswered(b, pser, 0x1211) }, 3*ContainWaitAnswer); ok {
+						C10LateAnswers[kind]++
+					}
+				}
 				switch {
 				case closed:
 					status[k] = "closed:" + Hx(d)
@@ -696,9 +755,6 @@ func c10ContainOnce(kind string, a []string) (result string, suspect bool) {
 					status[k] = "open:" + Hx(d)
 				default:
 					status[k] = "quiet:" + Hx(d)
-					if answer {
-						suspect = true
-					}
 				}
 			}
 		default:
@@ -727,6 +783,9 @@ func c10ContainOnce(kind string, a []string) (result string, suspect bool) {
 	fmt.Fprintf(&sb, " a=%s", acc)
 	if verify != "" {
 		fmt.Fprintf(&sb, " v=%s", verify)
+	}
+	if xcheck != "" {
+		fmt.Fprintf(&sb, " x=%s", xcheck)
 	}
 	if !alive {
 		fmt.Fprintf(&sb, " death=%q", child.Death())
